@@ -101,7 +101,28 @@ def gen_origin(rnd, origins):
     return rnd.choice(pool)
 
 
-def serve_case(rnd, kind="serve", tree=None, target=None, method=None, headers=None, cors=None, opts="", body=b"", meta=""):
+def mutate_request(rnd, b):
+    """structure-aware damage to a valid request (DESIGN.md section 5, malformed stream)"""
+    b = bytearray(b); k = rnd.random()
+    if not b:
+        return bytes(b)
+    if k < 0.2:
+        return bytes(b[:rnd.randrange(len(b) + 1)])
+    if k < 0.45:
+        i = rnd.randrange(len(b)); b[i] = rnd.choice([0, 10, 13, 32, 58, 128, 255, 0xc2, 0xa0, 0xe2, rnd.randrange(256)]); return bytes(b)
+    if k < 0.65:
+        i = rnd.randrange(len(b)); return bytes(b[:i]) + rnd.choice([b" ", b"\r\n", b": ", b"\xc2\xa0", b"\xe2\x80\xa8", b"\x85", b"\xff", b"\x00", b"\r", b"\n"]) + bytes(b[i:])
+    if k < 0.8:
+        i = rnd.randrange(len(b)); j = rnd.randrange(i, len(b)); return bytes(b[:i]) + bytes(b[j:])
+    if k < 0.9:
+        # numeric fields replaced by junk or extremes
+        import re
+        return re.sub(rb"[0-9]+", lambda m: rnd.choice([b"a", b"-1", b"18446744073709551616", b"99999999999999999999999", b"", b"+7", b" 5"]), bytes(b), count=1)
+    return rnd.choice([b"", b"\r\n\r\n", b"GET", b"GET /", b"GET / HTTP/1.1", b"\x00" * 30, b"\xff\xfe", b"GET  / HTTP/1.1\r\n\r\n", b"get / http/1.1\r\n\r\n",
+                       b"FOO / HTTP/1.1\r\n\r\n", b"GET / HTTP/3.0\r\n\r\n", b"GET / HTTP/1.1\r\n" + b"a:b\r\n" * rnd.choice([1, 50, 300]) + b"\r\n"])
+
+
+def serve_case(rnd, kind="serve", tree=None, target=None, method=None, headers=None, cors=None, opts="", body=b"", meta="", raw_req=None):
     t = tree or gen_tree(rnd)
     tg = target if target is not None else gen_target(rnd, t)
     meth = method or rnd.choice(["GET"] * 6 + ["HEAD", "OPTIONS", "POST", "get"])
@@ -115,6 +136,8 @@ def serve_case(rnd, kind="serve", tree=None, target=None, method=None, headers=N
         if rnd.random() < 0.35: hs.append("Origin: " + gen_origin(rnd, origins))
         if meth == "OPTIONS" and rnd.random() < 0.7: hs += ["Access-Control-Request-Method: PUT", "Access-Control-Request-Headers: X-A, Content-Type"]
     req = (meth + " " + tg + " HTTP/1.1\r\n" + "".join(h + "\r\n" for h in hs) + "\r\n").encode("utf-8", "surrogateescape") + body
+    if raw_req is not None:
+        req = raw_req(req) if callable(raw_req) else raw_req
     line = "%s %s outer/root %s %s %s" % (kind, BASE, cors, t.spec(), hx(req))
     if opts:
         line += " " + opts
